@@ -374,6 +374,30 @@ def c08_mixed_retval_tags():
     assert rd[0].tangent == UnknownChange, rd
     return str(rd[0].tangent)
 
+@probe
+def c37_hmm_forward_filter_asymmetric():
+    """N=4, transition truncation 3 (>= N/2: the circulant tensor is asymmetric): the forward filters must equal p(x_t | y_1..t) by enumeration"""
+    import itertools
+    import numpy as np
+    from genjax._src.generative_functions.distributions.custom.discrete_hmm import DiscreteHMMConfiguration, forward_filtering_backward_sampling
+    N, obs = 4, [0, 2, 1]
+    cfg = DiscreteHMMConfiguration(jnp.array(N), jnp.array(3), jnp.array(1), jnp.array(0.5), jnp.array(0.5))
+    sm = lambda a: np.exp(np.asarray(a, dtype=np.float64)) / np.exp(np.asarray(a, dtype=np.float64)).sum(-1, keepdims=True)
+    T, E = sm(cfg.transition_tensor()), sm(cfg.observation_tensor())
+    prior = T[N // 2]
+    _, (_s, ff) = forward_filtering_backward_sampling(key, cfg, jnp.array(obs))
+    err = 0.0
+    for t in range(len(obs)):
+        a = np.zeros(N)
+        for z in itertools.product(range(N), repeat=t + 1):
+            p_ = prior[z[0]] * E[z[0], obs[0]]
+            for s_ in range(1, t + 1):
+                p_ *= T[z[s_ - 1], z[s_]] * E[z[s_], obs[s_]]
+            a[z[-1]] += p_
+        err = max(err, float(np.abs(np.exp(np.asarray(ff[t])) - a / a.sum()).max()))
+    assert err < 1e-5, f"filter error {err}"
+    return err
+
 if __name__ == "__main__":
     names = sys.argv[1:] or list(P)
     bad = 0
